@@ -117,8 +117,10 @@ def r071(an, rep, enc: FunctionInfo, cdec: FunctionInfo, defs):
                     dec_called = all(any(isinstance(c, ast.Call) and isinstance(c.func, ast.Name) and c.func.id == cdec.name for c in ast.walk(a)) for a in rv.args)
                     okc = keys == ["real", "imag"] and dec_called
                     why = f"complex({keys[0]}, {keys[1]})" + ("" if dec_called else " without decoding the parts (tagged inf/nan parts stay dicts)")
-                else:
+                elif isinstance(rv, ast.BinOp) or (isinstance(rv, ast.Call) and isinstance(rv.func, ast.Name) and rv.func.id == "complex"):
                     why = f"`{norm_src(rv)}`"
+                else:
+                    raise AnalysisError(f"{cdec.qual}: complex arm `{norm_src(rv)}` not recognised")
             rep.add("R07.1", f"{cdec.qual}::complex is rebuilt as complex(real, imag)", okc, loc(cdec.module, n),
                     "complex(decoded real, decoded imag)" if okc else
                     f"the complex arm returns {why}: only the two-argument constructor reproduces every component exactly (arithmetic such as real + imag*1j turns -0.0 into 0.0 and "
@@ -493,6 +495,11 @@ def r073(an, rep, enc: FunctionInfo):
                 if not (isinstance(v, ast.Call) and isinstance(v.func, ast.Name) and v.func.id == enc.name and len(v.args) == 1
                         and isinstance(v.args[0], ast.Attribute) and isinstance(k, ast.Constant) and v.args[0].attr == k.value):
                     raw.append((k, v))
+        # a violation only when the stored value provably is the raw component (or the component of the other name); any other spelling is 'not recognised'
+        provable = [(k, v) for k, v in raw if isinstance(v, ast.Attribute) and v.attr in ("real", "imag")
+                    or (isinstance(v, ast.Call) and len(v.args) == 1 and isinstance(v.args[0], ast.Attribute) and v.args[0].attr in ("real", "imag") and isinstance(k, ast.Constant) and v.args[0].attr != k.value)]
+        if raw and not provable:
+            raise AnalysisError(f"{enc.qual}: complex arm `{norm_src(rets[0].value)}` not recognised")
         rep.add("R07.3", f"{enc.qual}::complex parts are encoded through the float arm", okc and not raw, loc(enc.module, carm[2]),
                 f"the complex arm stores `{norm_src(raw[0][1])}` under {norm_src(raw[0][0])}: the part is not passed through {enc.name} (or not the part its key names), so an infinite / NaN "
                 f"component reaches the document as a raw float (Infinity / NaN tokens) or the parts are swapped" if raw or not okc
